@@ -257,6 +257,20 @@ class Seg:
     def __len__(self):
         return self.n
 
+    def __getitem__(self, k):
+        # bytes slicing; a segment read from a file (value = (start, end) in the file) keeps track of its extent
+        if not isinstance(k, slice) or k.step is not None:
+            raise TypeError("segment index %r" % (k,))
+        n = self.n
+        a = 0 if k.start is None else (k.start if k.start >= 0 else n + k.start)
+        b = n if k.stop is None else (k.stop if k.stop >= 0 else n + k.stop)
+        a = min(max(a, 0), n)
+        b = min(max(b, a), n)
+        v = self.value
+        if isinstance(v, tuple) and len(v) == 2:
+            v = (v[0] + a, v[0] + b)
+        return Seg(self.tag, b - a, value=v)
+
 
 class SymFile:
     """binary file as the writer/reader code uses it: seek/tell/read/write/truncate over a length and a write log"""
